@@ -25,6 +25,7 @@ RULE = (
     "runs `reconcile` in-process (thl/ext_spfs/superdtl, any|all) and compares the printed 'Minimum cost' with the recount of each written "
     "solution.  evaluations = reconciliations compared.  Non-trivial case: >=3 object leaves, some mapping with >=2 event kinds and a labelling "
     "with >=1 charged segmental loss; distinct by SHA-1 of the case."
+    '  Also: a third of the cases use family names whose natural, string and case orders differ; the command-line clause prices the written solutions with the requested cost options (scaled by 1234567 in every other case, default-valued options omitted, decoy costs in the file) and also runs lca/thl on the labelled input.'
 )
 ASSUMPTIONS = ["only valid (super-)reconciliations are evaluated", "independent recount of harness/plain.py"]
 BUDGET = {"quick": {"random": 1200}, "thorough": {"random": 20000}}
